@@ -61,17 +61,21 @@ def spacetime_case(draw, kinds=("Wp", "Wp", "Wp", "Wn", "F", "KS", "PP"),
             spec = draw(S["flat"](kmax=1.5))
         elif kind == "KS":
             spec = draw(S["ks"]())
+        elif kind == "KSin":
+            # box inside the horizon: beta_k beta^k > alpha^2, g_tt > 0
+            spec = draw(S["ks"](inside=True))
         elif kind == "PP":
             spec = draw(S["pp"]())
         elif kind == "FL":
             spec = draw(S["fl"]())
         else:
             raise ValueError(kind)
-    x0 = [draw(dy(-1.0, 0.0, 64)) for _ in range(3)] if kind != "KS" \
-        else [-round(32 * l) / 64 for l in L]
+    x0 = [draw(dy(-1.0, 0.0, 64)) for _ in range(3)] \
+        if kind not in ("KS", "KSin") else [-round(32 * l) / 64 for l in L]
     c.update(spec=spec, t=0.0 if kind == "Wt0" else draw(f(-1, 1)),
              order=order, x0=x0, L=L, trim=trim,
-             omit_defaults=(kind == "Wt0" or draw(st.booleans())))
+             omit_defaults=(kind == "Wt0" or draw(st.booleans())),
+             kappa=draw(st.sampled_from([8 * np.pi] * 3 + [1.0, 2.5])))
     return c
 
 
@@ -148,6 +152,26 @@ def generic_FL(order=4, t=0.4, periodic=True, trim=3):
                 L=[(n - 1) * x for n, x in zip(N, h)],
                 boundary="no boundary", order=order, mask="generic",
                 kind="FL", trim=trim)
+
+
+def generic_FL_tiny(order=4, t=0.4):
+    """Scale factor 2e-3: det gamma ~ 6e-17 (below machine epsilon),
+    gamma^ij ~ 2.5e5."""
+    c = generic_FL(order, t)
+    c["spec"] = dict(family="FL", params=dict(N=[0.3, 1.2, 0.5],
+                                              a=[0.002, 0.2, 0.05, 1.3]))
+    return c
+
+
+def generic_KSin(order=4, trim=3, t=0.2):
+    """Box inside the horizon of a Kerr-Schild hole: beta_k beta^k > alpha^2
+    everywhere on the grid, g_tt > 0."""
+    c = generic_KS(order, trim, t)
+    c["spec"] = dict(family="KS", params=dict(
+        M=6.0, boost=[0.0, 0.0, 0.0], rot=[0.3, -0.5, 0.2],
+        offset=[0.0, 4.9, 0.2, -0.3]))
+    c["kind"] = "KSin"
+    return c
 
 
 def nontrivial_flags(ex):
